@@ -114,3 +114,22 @@ theorem polygonLoop_edgeCrosses (vs : List (Rat × Rat)) (x y : Rat) :
     polygonLoop edgeCrosses vs x y = polygonIn vs x y := rfl
 
 end PsVerif
+
+namespace PsVerif
+
+/-! ### box helpers (C13): the membership test inside the loops of `get_constrained_sensors_indices`
+(`a0`, `a1` = `a[0][i]`, `a[1][i]` with `a = np.unravel_index(all_sensors, (nx, ny))`) and of
+`get_constrained_sensors_indices_dataframe` (`x[i]`, `y[i]` = the point's coordinates) -/
+
+def specBoxCond (env : ShEnv) : Bool :=
+  decide (env "x_min" ≤ env "a0" ∧ env "a0" ≤ env "x_max" ∧ env "y_min" ≤ env "a1" ∧ env "a1" ≤ env "y_max")
+
+def specDfBoxCond (env : ShEnv) (p : Pt) : Bool :=
+  decide (env "x_min" ≤ p.x ∧ p.x < env "x_max" ∧ env "y_min" ≤ p.y ∧ p.y < env "y_max")
+
+/-- environment of one pixel of the `n × n` grid -/
+def boxEnv (xmin xmax ymin ymax : Rat) (n s : Nat) : ShEnv := fun k =>
+  if k = "x_min" then xmin else if k = "x_max" then xmax else if k = "y_min" then ymin else if k = "y_max" then ymax
+  else if k = "a0" then ((s / n : Nat) : Rat) else if k = "a1" then ((s % n : Nat) : Rat) else 0
+
+end PsVerif
